@@ -93,6 +93,12 @@ func msgFeatures(md protoreflect.MessageDescriptor) []string {
 		}
 		if fd.IsMap() && fd.MapValue().Kind() == protoreflect.MessageKind && model.UnwrapField(fd.MapValue().Message()) != nil {
 			add("unwrap_map_value")
+			if fd.MapValue().Message().ParentFile().Path() != md.ParentFile().Path() {
+				add("unwrap_map_value:wrapper_in_other_file")
+			}
+		}
+		if fd.Kind() == protoreflect.MessageKind && fd.Message().ParentFile().Package() != md.ParentFile().Package() && !strings.HasPrefix(string(fd.Message().FullName()), "google.protobuf.") {
+			add("field_type_from_other_package")
 		}
 		if fd.Kind() == protoreflect.EnumKind {
 			vs := fd.Enum().Values()
